@@ -55,6 +55,14 @@ def sweep_plans(base, rng, tier):
                 p["srv"]["uid"] = rng.choice([1001, 1002, 1004, 1007, 0x7fff, 0x8000, 0xfffe, 0xffff, rng.choice([u for u in (rng.randrange(1001, 65536), 1005) if u != 1003])])
                 plans.append(p)
                 k += 1
+    # NLA against servers whose CHALLENGE carries target information of odd / unusual sizes (AV pair values are byte strings
+    # of any length): the AUTHENTICATE token built from it must still be packed as the grammar says
+    nlas = [p for p in plans if p["cfg"]["nla"] and p["id"].startswith("sweep-")][:24]
+    for j, q in enumerate(nlas):
+        r = json.loads(json.dumps(q))
+        r["id"] = "ti-%d" % j
+        r["srv"]["ti_extra"] = [[[5, 1]], [[5, 3], [6, 4]], [[9, 7]], [[5, 0]], [[10, 16], [5, 5]], [[8, 48], [9, 1]]][j % 6]
+        plans.append(r)
     # length ladder: the MCS send-data user data of the Client Info PDU crosses every PER length boundary
     # (0x7f / 0x80 / ...) once per Client Info variant
     for ext in (False, True):
